@@ -1,8 +1,11 @@
 (** C16 — a time value denotes the same instant on every path.
     This file contains only the property theorems, each closed by [exact],
-    with [Print Assumptions] beneath. Models: Model/Time.v; proofs: Proofs/TimeProofs.v. *)
+    with [Print Assumptions] beneath. Models: Model/Time.v, Model/TimePrint.v (printers), Base/Civil.v;
+    proofs: Proofs/TimeProofs.v, Proofs/CivilProofs.v, Proofs/TimeIsoProofs.v. *)
 From Coq Require Import ZArith.
-From Snel Require Import Model.Time Proofs.TimeProofs.
+From Coq Require Import NArith List Bool.
+From Snel Require Import Base.Bytes Base.Civil Model.Time Model.TimePrint
+                         Proofs.TimeProofs Proofs.CivilProofs Proofs.TimeIsoProofs.
 Open Scope Z_scope.
 
 (** Integer spellings (seconds / ms / µs / ns inside their digit bands) of the
@@ -25,3 +28,101 @@ Theorem C16_out_of_range_rejected : forall n,
   10 ^ 19 <= Z.abs n -> normalize_integer_epoch n = None.
 Proof. exact normalize_reject. Qed.
 Print Assumptions C16_out_of_range_rejected.
+
+(** ---- ISO-8601 / RFC 3339 spellings ---- *)
+
+(** Hinnant's calendar algorithms are mutually inverse on all of Z. *)
+Theorem C16_civil_roundtrip : forall z,
+  let '(y, m, d) := civil_from_days z in days_from_civil y m d = z.
+Proof. exact civil_roundtrip. Qed.
+Print Assumptions C16_civil_roundtrip.
+
+Theorem C16_civil_from_days_valid : forall z,
+  let '(y, m, d) := civil_from_days z in valid_ymd y m d = true.
+Proof. exact civil_from_days_valid. Qed.
+Print Assumptions C16_civil_from_days_valid.
+
+Theorem C16_civil_of_days_from_civil : forall y m d,
+  valid_ymd y m d = true -> civil_from_days (days_from_civil y m d) = (y, m, d).
+Proof. exact civil_of_days_from_civil. Qed.
+Print Assumptions C16_civil_of_days_from_civil.
+
+(** The model of chrono's RFC 3339 parser inverts the printer: for every four-digit
+    year, valid date, time of day (second 60 = leap-second spelling), any digit string
+    as fraction (absent when empty), separator T / t / space, offset |off| <= 23:59
+    written Z / z / +HH:MM / -HH:MM / U+2212 HH:MM. *)
+Theorem C16_parse_print_rfc3339_gen : forall y m d h mi s frac sep off tz,
+  0 <= y <= 9999 -> valid_ymd y m d = true ->
+  0 <= h < 24 -> 0 <= mi < 60 -> 0 <= s <= 60 ->
+  forallb is_digit frac = true -> sep_ok sep = true ->
+  Z.abs off <= 1439 -> tz_ok off tz ->
+  parse_rfc3339 (print_rfc3339_gen y m d h mi s frac sep off tz)
+  = Some (days_from_civil y m d * 86400 + h * 3600 + mi * 60 + Z.min s 59 - off * 60).
+Proof. exact parse_print_rfc3339_gen. Qed.
+Print Assumptions C16_parse_print_rfc3339_gen.
+
+Theorem C16_parse_print_rfc3339 : forall y m d h mi s frac sep off (zulu : bool),
+  0 <= y <= 9999 -> valid_ymd y m d = true ->
+  0 <= h < 24 -> 0 <= mi < 60 -> 0 <= s <= 60 ->
+  forallb is_digit frac = true -> sep_ok sep = true ->
+  Z.abs off <= 1439 -> (zulu = true -> off = 0) ->
+  parse_rfc3339 (print_rfc3339 y m d h mi s frac sep off zulu)
+  = Some (days_from_civil y m d * 86400 + h * 3600 + mi * 60 + Z.min s 59 - off * 60).
+Proof. exact parse_print_rfc3339. Qed.
+Print Assumptions C16_parse_print_rfc3339.
+
+(** All ISO spellings of one instant [t] (whole seconds; the sub-second digits are
+    [frac]) — any offset, any fraction, any separator, any offset notation — denote
+    [t] = floor of the instant.  [t] ranges over 0000-01-02T00:00:00Z .. 9999-12-30T23:59:59Z
+    (the four-digit years with a day of margin for the offset), negative instants included. *)
+Theorem C16_iso_spellings_agree : forall t frac sep off tz,
+  iso_t_lo <= t <= iso_t_hi ->
+  forallb is_digit frac = true -> sep_ok sep = true ->
+  Z.abs off <= 1439 -> tz_ok off tz ->
+  parse_rfc3339 (print_instant_gen t frac sep off tz) = Some t.
+Proof. exact iso_spellings_agree. Qed.
+Print Assumptions C16_iso_spellings_agree.
+
+(** ... and through the entry point [parse_str_to_epoch_seconds] (RFC 3339 is tried
+    first), with ASCII white space around the literal. *)
+Theorem C16_iso_string_agree : forall t frac sep off tz ws1 ws2,
+  iso_t_lo <= t <= iso_t_hi ->
+  forallb is_digit frac = true -> sep_ok sep = true ->
+  Z.abs off <= 1439 -> tz_ok off tz ->
+  forallb is_ascii_ws ws1 = true -> forallb is_ascii_ws ws2 = true ->
+  parse_str_to_epoch_seconds (ws1 ++ print_instant_gen t frac sep off tz ++ ws2) = Some t.
+Proof. exact iso_string_agree. Qed.
+Print Assumptions C16_iso_string_agree.
+
+(** The ISO spelling and the in-band integer spellings (s / ms / us / ns) of the same
+    instant normalise to the same second. *)
+Theorem C16_iso_and_integer_agree : forall t frac sep off tz ws1 ws2 rms rus rns,
+  iso_t_lo <= t <= iso_t_hi ->
+  forallb is_digit frac = true -> sep_ok sep = true ->
+  Z.abs off <= 1439 -> tz_ok off tz ->
+  forallb is_ascii_ws ws1 = true -> forallb is_ascii_ws ws2 = true ->
+  0 <= rms < 1000 -> 0 <= rus < 1000000 -> 0 <= rns < 1000000000 ->
+  let iso := parse_str_to_epoch_seconds (ws1 ++ print_instant_gen t frac sep off tz ++ ws2) in
+  iso = Some t /\
+  (Z.abs t < 10 ^ 11 -> normalize_integer_epoch t = iso) /\
+  (10 ^ 11 <= Z.abs (t * 1000 + rms) < 10 ^ 14 ->
+     normalize_integer_epoch (t * 1000 + rms) = iso) /\
+  (10 ^ 14 <= Z.abs (t * 1000000 + rus) < 10 ^ 16 ->
+     normalize_integer_epoch (t * 1000000 + rus) = iso) /\
+  (10 ^ 16 <= Z.abs (t * 1000000000 + rns) < 10 ^ 19 ->
+     normalize_integer_epoch (t * 1000000000 + rns) = iso).
+Proof. exact iso_and_integer_agree. Qed.
+Print Assumptions C16_iso_and_integer_agree.
+
+(** Date-only spelling YYYY-MM-DD = midnight UTC of that day. *)
+Theorem C16_parse_print_date : forall y m d,
+  0 <= y <= 9999 -> valid_ymd y m d = true ->
+  parse_date_only (print_date y m d) = Some (days_from_civil y m d * 86400).
+Proof. exact parse_print_date. Qed.
+Print Assumptions C16_parse_print_date.
+
+Theorem C16_date_string_agree : forall y m d,
+  0 <= y <= 9999 -> valid_ymd y m d = true ->
+  parse_str_to_epoch_seconds (print_date y m d) = Some (days_from_civil y m d * 86400).
+Proof. exact date_string_agree. Qed.
+Print Assumptions C16_date_string_agree.
